@@ -61,12 +61,36 @@ def topology_record(rid, t):
             continue
         suffixes.append([list(topo.attached(t, e)), topo.parse_name("x" + get_boost_chain_suffix(t, e))[1]])
         opposite.append([list(topo.attached(t, e)), int(is_opposite_helicity_state(t, e))])
+    # the tree operators of ampform.helicity.decay, per edge, as final-state sets
+    from ampform.helicity import decay as D
+
+    att = lambda e: list(topo.attached(t, e))  # noqa: E731
+    treeops = []
+    for e in t.edges:
+        par = D.get_parent_id(t, e)
+        try:
+            sib = att(D.get_sibling_state_id(t, e))
+        except ValueError:
+            sib = []
+        treeops.append({"s": att(e), "attached": list(D.determine_attached_final_state(t, e)), "parent": att(par) if par is not None else [],
+                        "sibling": sib, "chain": [att(x) for x in D.list_decay_chain_ids(t, e)]})
+    three = {}
+    if len(t.outgoing_edge_ids) == 3 and set(t.incoming_edge_ids) == {-1} and set(t.outgoing_edge_ids) == {0, 1, 2}:
+        # the three-body operators require the relabelled ids (0; 1, 2, 3): relabel_edge_ids shifts every id by one
+        from ampform.helicity.align.dpd import relabel_edge_ids
+
+        t3 = relabel_edge_ids(t)
+        try:
+            three = {"spectator": int(D.get_spectator_id(t3)) - 1, "products": [int(x) - 1 for x in D.get_decay_product_ids(t3)], "err": "",
+                     "relabelled_tree": [list(x) for x in topo.tree_of(t3)], "relabelled_initial": sorted(t3.incoming_edge_ids)}
+        except Exception as ex:  # noqa: BLE001
+            three = {"spectator": -99, "products": [], "err": type(ex).__name__, "relabelled_tree": [], "relabelled_initial": []}
     from ampform.kinematics.lorentz import compute_boost_chain
 
     boost_chains = [[i, topo.project_boost_chain(compute_boost_chain(t, p, i))] for i in sorted(t.outgoing_edge_ids)]
     ident = get_topology_identifier(t)
     topo_id = [[int(c) for c in g] for g in ident.split(",")] if ident else []
-    return {"kind": "topology", "id": rid, "tree": [list(s) for s in topo.tree_of(t)], "suffixes": suffixes, "opposite": opposite, "topo_id": topo_id, "boost_chains": boost_chains, **proj}, {**exprs, **masses}
+    return {"kind": "topology", "id": rid, "tree": [list(s) for s in topo.tree_of(t)], "suffixes": suffixes, "opposite": opposite, "topo_id": topo_id, "boost_chains": boost_chains, "treeops": treeops, "three": [three] if three else [], **proj}, {**exprs, **masses}
 
 
 def raw_exprs(t):
